@@ -174,6 +174,8 @@ def cases():
     out.append(("np.einsum", lambda: ("ij,jk->ik", rnd((2, 3)), rnd((3, 2))), {}))
     out.append(("np.einsum", lambda: ("ij,ij->i", rnd((2, 3)), rnd((2, 3))), {}))
     out.append(("np.cumsum", lambda: (vec()(),), {}))
+    for ax in (None, 0, 1, -1):
+        out.append(("np.sort", lambda: (mat()(),), {"axis": ax}))
     out.append(("np.interp", lambda: (R.choice([0.5, 1.5, -1.0, 9.0]), [0.0, 1.0, 2.0], vec()()[:3] + [0.0] * 3), {}))
     return out
 
